@@ -125,10 +125,11 @@ def undeclare(mod):
     sys.modules.pop(mod.__name__, None)
 
 
-def chain(shape, D, positions, siblings=0, leaf=None, bottom_leaf=None, shared=False):
+def chain(shape, D, positions, siblings=0, leaf=None, bottom_leaf=None, shared=False, bottom=None):
     """input of data-class nesting depth D; positions[i] = where level i+1 sits inside level i
     shared: the siblings of a level are ONE object used several times, and the deeper node itself appears twice (a DAG, no cycle)"""
-    node = {"v": D}
+    # bottom: what the innermost node is made of ("empty": {} - every field has a default, it is a node like any other)
+    node = {} if bottom == "empty" else {"v": D}
     if leaf is not None:
         node["leaf"] = bottom_leaf if bottom_leaf is not None else leaf
     for level in range(D - 1, 0, -1):
@@ -177,7 +178,9 @@ def judge_depth(case):
     # runtime-override: the class declares another limit (or none); Options(max_depth=d, override=True) passed to __from__ governs every level
     mod, N = declare(shape, d if how == "class" else case.get("class_limit"), base=case.get("base", "Schema"), collect=bool(case.get("collect")))
     try:
-        x = chain(shape, D, positions, siblings=case.get("siblings", 0), shared=bool(case.get("shared")))
+        if case.get("bottom") not in (None, "empty") or (case.get("bottom") and shape in ("union_first", "union_last", "union_int_list")):
+            raise HarnessError("bad bottom")
+        x = chain(shape, D, positions, siblings=case.get("siblings", 0), shared=bool(case.get("shared")), bottom=case.get("bottom"))
         if how == "class":
             out = oracle.outcome(N.__from__, x)
         else:
@@ -345,6 +348,11 @@ def campaign(ctx):
             for D in range(1, 7):
                 for d in (None, 1, 2, 3, 4):
                     grid.append({"part": "depth", "shape": shape, "D": D, "max_depth": d, "positions": [pos]})
+        # (beside an int / list member of a union the empty mapping is no node at all: int({}) is 0 - those shapes are left out)
+        for bottom in (("empty",) if shape not in ("union_first", "union_last", "union_int_list") else ()):
+            for D in range(1, 6):
+                for d in (1, 2, 3, 4):
+                    grid.append({"part": "depth", "shape": shape, "D": D, "max_depth": d, "positions": [POSITIONS[shape][0]], "bottom": bottom})
         for d in (1, 2, 4):
             for cyc in ("self", "two"):
                 grid.append({"part": "cycle", "shape": shape, "max_depth": d, "cycle": cyc})
